@@ -4,7 +4,7 @@ type (so "every value other than nil observed at run time has the kind of the st
 
 The three list arms are replaced by calls to the fragment functions unit c02_compat proves exact (C02.compat.list.*); the recursive calls on component
 types are abstract with the induction hypothesis (the same statement for the components) as an axiom: the obligation is the inductive step for every arm,
-in the order the match tries them.  Outside the statement: types that mention a generic or `Self`, an expected type that is the type of the literal `nil`
+in the order the match tries them.  Outside the statement: types that mention a generic or a `Self` whose class is not yet known, an expected type that is the type of the literal `nil`
 (the compiler refuses to declare a variable of that type), and the two leniency flags no caller sets."""
 from vlib.rules import *
 from vlib.extract import extract_match_arm
@@ -39,10 +39,15 @@ pub broadcast axiom fn ax_open(t: TL, v: Val) requires t is List, t->List_0 is O
     ensures #![trigger inhab(t, v), t->List_0] inhab(t, v) == (v is List && forall|i: int| 0 <= i < v->List_0.len() ==> inhab(*t->List_0->Open_0, #[trigger] v->List_0[i]));
 pub broadcast axiom fn ax_str(a: TL, b: TL, v: Val) requires a is Native, a->Native_0 is Str, b is Native, b->Native_0 is Str
     ensures #![trigger inhab(a, v), b->Native_0] inhab(a, v) == inhab(b, v);
-// inside the statement: no generic, no `Self` anywhere in the type
+// inside the statement: no generic and no `Self` of an unknown class anywhere in the type
 pub uninterp spec fn closed(t: TL) -> bool;
 pub broadcast axiom fn ax_closed(t: TL) ensures #![trigger closed(t)]
-    (t is Generic || t is ClassSelf) ==> !closed(t);
+    (t is Generic || (t is ClassSelf && t->ClassSelf_0 is None)) ==> !closed(t);
+// `Self` written inside class K means K
+pub broadcast axiom fn ax_self(t: TL, v: Val) requires t is ClassSelf, t->ClassSelf_0 is Some
+    ensures #![trigger inhab(t, v), t->ClassSelf_0] inhab(t, v) == inhab(TL::Class(t->ClassSelf_0->Some_0), v);
+pub broadcast axiom fn ax_class_closed(t: TL) requires t is Class ensures #[trigger] closed(t);
+pub broadcast axiom fn ax_class_nn(t: TL) requires t is Class ensures #[trigger] no_nil_slot(t);
 pub broadcast axiom fn ax_closed_optional(t: TL) requires t is Optional, t->Optional_0 is Some ensures #![trigger closed(t), t->Optional_0] closed(t) == closed(*t->Optional_0->Some_0);
 pub broadcast axiom fn ax_closed_mixed(t: TL) requires t is List, t->List_0 is Mixed
     ensures #![trigger closed(t), t->List_0] closed(t) == (forall|i: int| 0 <= i < t->List_0->Mixed_0@.len() ==> closed(#[trigger] t->List_0->Mixed_0@[i]));
@@ -54,35 +59,20 @@ pub broadcast axiom fn ax_nn_optional(t: TL) requires t is Optional
 pub broadcast axiom fn ax_nn_mixed(t: TL) requires t is List, t->List_0 is Mixed
     ensures #![trigger no_nil_slot(t), t->List_0] no_nil_slot(t) == (forall|i: int| 0 <= i < t->List_0->Mixed_0@.len() ==> no_nil_slot(#[trigger] t->List_0->Mixed_0@[i]));
 pub broadcast axiom fn ax_nn_open(t: TL) requires t is List, t->List_0 is Open ensures #![trigger no_nil_slot(t), t->List_0] no_nil_slot(t) == no_nil_slot(*t->List_0->Open_0);
-// nowhere in the pair is a FIXED-SHAPE list expected where an open list is supplied (known finding D83: that case is accepted although a `[T...]`
-// has no static length)
-pub uninterp spec fn shape_ok(expected: TL, supplied: TL) -> bool;
-pub broadcast axiom fn ax_shape_mixed_open(a: TL, b: TL) requires a is List, a->List_0 is Mixed, b is List, b->List_0 is Open ensures #![trigger shape_ok(a, b), a->List_0, b->List_0] !shape_ok(a, b);
-pub broadcast axiom fn ax_shape_mixed_mixed(a: TL, b: TL) requires a is List, a->List_0 is Mixed, b is List, b->List_0 is Mixed, shape_ok(a, b)
-    ensures #![trigger shape_ok(a, b), a->List_0, b->List_0] forall|j: int| #![trigger a->List_0->Mixed_0@[j]] #![trigger b->List_0->Mixed_0@[j]] 0 <= j < a->List_0->Mixed_0@.len() && j < b->List_0->Mixed_0@.len() ==> shape_ok(a->List_0->Mixed_0@[j], b->List_0->Mixed_0@[j]);
-pub broadcast axiom fn ax_shape_open_open(a: TL, b: TL) requires a is List, a->List_0 is Open, b is List, b->List_0 is Open, shape_ok(a, b)
-    ensures #![trigger shape_ok(a, b), a->List_0, b->List_0] shape_ok(*a->List_0->Open_0, *b->List_0->Open_0);
-pub broadcast axiom fn ax_shape_open_mixed(a: TL, b: TL) requires a is List, a->List_0 is Open, b is List, b->List_0 is Mixed, shape_ok(a, b)
-    ensures #![trigger shape_ok(a, b), a->List_0, b->List_0] forall|j: int| 0 <= j < b->List_0->Mixed_0@.len() ==> shape_ok(*a->List_0->Open_0, #[trigger] b->List_0->Mixed_0@[j]);
-pub broadcast axiom fn ax_shape_optional(a: TL, b: TL) requires a is Optional, a->Optional_0 is Some, shape_ok(a, b)
-    ensures #![trigger shape_ok(a, b), a->Optional_0] (if b is Optional { b->Optional_0 is Some ==> shape_ok(*a->Optional_0->Some_0, *b->Optional_0->Some_0) } else { shape_ok(*a->Optional_0->Some_0, b) });
-pub broadcast group meaning { ax_shape_mixed_open, ax_shape_mixed_mixed, ax_shape_open_open, ax_shape_open_mixed, ax_shape_optional, ax_optional, ax_mixed, ax_open, ax_str, ax_closed, ax_closed_optional, ax_closed_mixed, ax_closed_open, ax_nn_optional, ax_nn_mixed, ax_nn_open }
+pub broadcast group meaning { ax_self, ax_class_closed, ax_class_nn, ax_optional, ax_mixed, ax_open, ax_str, ax_closed, ax_closed_optional, ax_closed_mixed, ax_closed_open, ax_nn_optional, ax_nn_mixed, ax_nn_open }
 
 // ---- callees
 // disregard_distractors(false): aliases and captured-variable wrappers removed at the top: the same values, the same standing
 pub uninterp spec fn strip(t: TL) -> TL;
 impl TL {
     #[verifier::external_body] pub fn disregard_distractors(&self, is_optional_distractor: bool) -> (r: &TL)
-        ensures *r == strip(*self), forall|v: Val| inhab(strip(*self), v) == inhab(*self, v), closed(strip(*self)) == closed(*self), no_nil_slot(strip(*self)) == no_nil_slot(*self),
-            forall|o: TL| #![trigger shape_ok(*self, o)] shape_ok(*self, o) ==> shape_ok(strip(*self), o), forall|o: TL| #![trigger shape_ok(o, *self)] shape_ok(o, *self) ==> shape_ok(o, strip(*self)) { unimplemented!() }
+        ensures *r == strip(*self), forall|v: Val| inhab(strip(*self), v) == inhab(*self, v), closed(strip(*self)) == closed(*self), no_nil_slot(strip(*self)) == no_nil_slot(*self) { unimplemented!() }
     // the recursive call on component types: its result is `compat`, of which the induction hypothesis speaks
     #[verifier::external_body] pub fn eq_complex_rec(&self, rhs: &TL, flags: &Flags) -> (r: bool) ensures r == compat(*self, *rhs, *flags) { unimplemented!() }
     #[verifier::external_body] pub fn is_optional(&self) -> (r: (bool, bool)) { unimplemented!() }
 }
 pub uninterp spec fn compat(expected: TL, supplied: TL, f: Flags) -> bool;
-pub broadcast axiom fn induction_hypothesis(a: TL, b: TL, f: Flags) ensures (#[trigger] compat(a, b, f) && plain(f) && closed(a) && closed(b) && no_nil_slot(a) && shape_ok(a, b)) ==> subset(a, b);
-// the same without the exclusion of D83 (used by the twin obligation only)
-pub broadcast axiom fn induction_hypothesis_all_shapes(a: TL, b: TL, f: Flags) ensures (#[trigger] compat(a, b, f) && plain(f) && closed(a) && closed(b) && no_nil_slot(a)) ==> subset(a, b);
+pub broadcast axiom fn induction_hypothesis(a: TL, b: TL, f: Flags) ensures (#[trigger] compat(a, b, f) && plain(f) && closed(a) && closed(b) && no_nil_slot(a)) ==> subset(a, b);
 // `lhs == rhs` (derived PartialEq, with ListType::eq / FunctionType::eq inside: C02.compat.listtype.eq, C02.compat.function.eq): equal types admit the same values
 #[verifier::external_body] pub fn same_type(a: &TL, b: &TL) -> (r: bool) ensures r ==> subset(*a, *b) { unimplemented!() }
 impl GenericV { #[verifier::external_body] pub fn is_compatible(&self, other: &TL, flags: &Flags) -> (r: bool) { unimplemented!() } }
@@ -93,15 +83,12 @@ pub open spec fn mixed_mixed(t1: Seq<TL>, t2: Seq<TL>, f: Flags) -> bool { t1.le
 pub open spec fn mixed_open(t1: Seq<TL>, t2: TL, f: Flags) -> bool { forall|j: int| 0 <= j < t1.len() ==> compat(t2, t1[j], f) }
 #[verifier::external_body] pub fn eq_complex_arm_mixed_mixed(t1: &Vec<TL>, t2: &Vec<TL>, flags: &Flags) -> (r: bool) ensures r == mixed_mixed(t1@, t2@, *flags) { unimplemented!() }
 #[verifier::external_body] pub fn eq_complex_arm_open_open(t1: &Box<TL>, t2: &Box<TL>, flags: &Flags) -> (r: bool) ensures r == compat(**t1, **t2, *flags) { unimplemented!() }
-pub open spec fn open_into_mixed(t1: Seq<TL>, t2: TL, f: Flags) -> bool { forall|j: int| 0 <= j < t1.len() ==> compat(t1[j], t2, f) }
-#[verifier::external_body] pub fn eq_complex_arm_open_mixed(t1: &Vec<TL>, t2: &TL, flags: &Flags) -> (r: bool) ensures r == open_into_mixed(t1@, *t2, *flags) { unimplemented!() }
 #[verifier::external_body] pub fn eq_complex_arm_mixed_open(t1: &Vec<TL>, t2: &TL, flags: &Flags) -> (r: bool) ensures r == mixed_open(t1@, *t2, *flags) { unimplemented!() }
 """
 
 LIST_ARMS = [
     ("( Self :: List ( ListType :: Mixed ( t1 ) ) , Self :: List ( ListType :: Mixed ( t2 ) ) , _ )", "eq_complex_arm_mixed_mixed ( t1 , t2 , flags )"),
     ("( Self :: List ( ListType :: Open ( t1 ) ) , Self :: List ( ListType :: Open ( t2 ) ) , _ )", "eq_complex_arm_open_open ( t1 , t2 , flags )"),
-    ("( Self :: List ( ListType :: Mixed ( t1 ) ) , Self :: List ( ListType :: Open ( t2 ) ) , _ )", "eq_complex_arm_open_mixed ( t1 , t2 , flags )"),
     ("( Self :: List ( ListType :: Open ( t2 ) ) , Self :: List ( ListType :: Mixed ( t1 ) ) , _ )", "eq_complex_arm_mixed_open ( t1 , t2 , flags )"),
 ]
 
@@ -137,30 +124,20 @@ def build(repo):
 pub fn eq_complex(self_: &TL, rhs: &TL, flags: &Flags) -> (r: bool)
     ensures
         // accepted => every value the supplied type admits is a value of the expected type
-        (r && plain(*flags) && closed(*self_) && closed(*rhs) && no_nil_slot(*self_) && shape_ok(*self_, *rhs)) ==> subset(*self_, *rhs),
+        (r && plain(*flags) && closed(*self_) && closed(*rhs) && no_nil_slot(*self_)) ==> subset(*self_, *rhs),
 {{
     broadcast use meaning, induction_hypothesis;
 {render(b, 1)}
 }}
 
-//@ KF C02.compat.sound.fixed-shape
-// the same statement for EVERY pair of closed types: fails where a `[T...]` is accepted as a fixed-shape list (known finding D83)
-pub fn eq_complex_all_shapes(self_: &TL, rhs: &TL, flags: &Flags) -> (r: bool)
-    ensures
-        (r && plain(*flags) && closed(*self_) && closed(*rhs) && no_nil_slot(*self_)) ==> subset(*self_, *rhs),
-{{
-    broadcast use meaning, induction_hypothesis_all_shapes;
-{render(b, 1)}
-}}
 }} // verus!
 fn main() {{}}
 """.replace("self.disregard_distractors", "self_.disregard_distractors")
-    return gen, [Obl("C02.compat.sound", ["C02", "C12"], fn="TypeLayout::eq_complex", desc="eq_complex answers true only if every run-time value of the supplied type is a value of the expected type (inductive step over every arm, in match order; closed types, plain flags, expected type without a literal-nil slot, no fixed-shape list expected where an open list is supplied)"),
-                 Obl("C02.compat.sound.fixed-shape", ["C02", "C03"], kind="kf", finding="D83", fn="TypeLayout::eq_complex", desc="the same for every pair of closed types -- known finding D83: `[T...]` is accepted where a fixed-shape list is expected (its length is not known; through the empty shape `[]` a `[str...]` becomes a `[int...]`)")], log
+    return gen, [Obl("C02.compat.sound", ["C02", "C12"], fn="TypeLayout::eq_complex", desc="eq_complex answers true only if every run-time value of the supplied type is a value of the expected type (inductive step over every arm, in match order; closed types, plain flags, expected type without a literal-nil slot)")], log
 
 
 UNITS = [VUnit("c02_compat_sound", ["C02", "C12"], "type compatibility is sound: accepted => the supplied type's values are values of the expected type", build)]
 UNITS[0].assumes = ["induction hypothesis for the recursive calls on component types is an axiom (partial correctness; termination of eq_complex is not proved)",
                     "the meaning of types (which run-time values a type admits) is the stated axioms: nil-type, T?, fixed-shape and open lists, strings of any compile-time length; other types are opaque",
                     "PartialEq for TypeLayout (`lhs == rhs`): equal types admit the same values (assumed; its list / function parts are C02.compat.listtype.eq / function.eq); disregard_distractors keeps the admitted values",
-                    "outside the statement: types mentioning a generic or `Self`, an expected type with a literal-nil slot, a fixed-shape list expected where an open list is supplied (D83), flags lhs_allow_optional_unwrap / force_rhs_to_be_unwrapped_lhs (no caller sets them)"]
+                    "outside the statement: types mentioning a generic or a `Self` whose class is not yet known, an expected type with a literal-nil slot, flags lhs_allow_optional_unwrap / force_rhs_to_be_unwrapped_lhs (no caller sets them)"]
